@@ -315,6 +315,24 @@ func (e *Engine) freshPtr(v ssa.Value, depth int) bool {
 func guardRule(w *World, r *Report, e *Engine, rule string, g guardedField) {
 	acc := w.fieldAccesses(g)
 	required := map[*ssa.Function]int{} // fn -> mode required on its receiver (param 0)
+	reqParam := map[*ssa.Function]int{} // fn -> index of the parameter the requirement is on (0 for methods)
+	// the parameter of a method (its receiver) or of an unexported plain function that the guarded object is
+	paramObj := func(fn *ssa.Function, v ssa.Value) (int, bool) {
+		for i, p := range fn.Params {
+			if v != ssa.Value(p) {
+				continue
+			}
+			if fn.Signature.Recv() != nil {
+				return i, i == 0
+			}
+			if fn.Parent() == nil && fn.Object() != nil && !fn.Object().Exported() {
+				if cur, ok := reqParam[fn]; !ok || cur == i {
+					return i, true
+				}
+			}
+		}
+		return 0, false
+	}
 	type pending struct {
 		a    fieldAccess
 		mode int
@@ -343,11 +361,12 @@ func guardRule(w *World, r *Report, e *Engine, rule string, g guardedField) {
 			r.bad(rule, a.fn, construct, instrPos(a.in), "written while only the read lock is held")
 		default:
 			// receiver-based requirement: the object is the function's receiver (parameter 0)
-			if len(a.fn.Params) > 0 && a.fa.X == ssa.Value(a.fn.Params[0]) && a.fn.Signature.Recv() != nil {
+			if pi, ok := paramObj(a.fn, a.fa.X); ok {
 				if required[a.fn] < need {
 					required[a.fn] = need
 				}
-				r.ok(rule, a.fn, construct, instrPos(a.in), "method entered with the receiver's lock held (checked at every call site below)")
+				reqParam[a.fn] = pi
+				r.ok(rule, a.fn, construct, instrPos(a.in), "function entered with the lock of this object held, or on an object not yet shared (checked at every call site below)")
 			} else {
 				r.bad(rule, a.fn, construct, instrPos(a.in), "accessed without holding "+key+" (held: "+st.String()+")")
 			}
@@ -372,8 +391,8 @@ func guardRule(w *World, r *Report, e *Engine, rule string, g guardedField) {
 					var targets []*ssa.Function
 					var recv ssa.Value
 					if sc := c.StaticCallee(); sc != nil {
-						if _, req := required[sc]; req && len(c.Args) > 0 {
-							targets, recv = []*ssa.Function{sc}, c.Args[0]
+						if _, req := required[sc]; req && len(c.Args) > reqParam[sc] {
+							targets, recv = []*ssa.Function{sc}, c.Args[reqParam[sc]]
 						}
 					} else if c.IsInvoke() {
 						for _, d := range w.dynCallees(ci) {
@@ -394,13 +413,14 @@ func guardRule(w *World, r *Report, e *Engine, rule string, g guardedField) {
 						}
 						ok := st[key] >= need
 						why := "caller holds " + st.String()
-						if !ok && len(fn.Params) > 0 && recv == ssa.Value(fn.Params[0]) && fn.Signature.Recv() != nil {
-							// same receiver: the caller becomes lock-required itself
+						if pi, isP := paramObj(fn, recv); !ok && isP {
+							// same object: the caller becomes lock-required itself
 							if required[fn] < need {
 								required[fn] = need
 								changed = true
 							}
-							ok, why = true, "caller is itself entered with the receiver's lock held"
+							reqParam[fn] = pi
+							ok, why = true, "caller is itself entered with the object's lock held"
 						}
 						if !ok && e.freshPtr(recv, 0) {
 							ok, why = true, "receiver allocated in this activation"
@@ -637,6 +657,18 @@ func escapes(v ssa.Value) bool {
 				}
 				if c.StaticCallee() != nil && c.StaticCallee().Signature.Recv() != nil && isRecvOnly {
 					continue
+				}
+				// an unexported function of the module that neither stores, returns nor hands on the parameter
+				if sc := c.StaticCallee(); sc != nil && sc.Signature.Recv() == nil && sc.Parent() == nil && sc.Object() != nil && !sc.Object().Exported() && strings.HasPrefix(fnPkgPath(sc), modPath) && len(sc.Blocks) > 0 {
+					kept := false
+					for i, a := range c.Args {
+						if a == v && (i >= len(sc.Params) || paramEscapes(sc.Params[i], map[*ssa.Function]bool{}, 0)) {
+							kept = true
+						}
+					}
+					if !kept {
+						continue
+					}
 				}
 				return true
 			default:
